@@ -12,7 +12,7 @@ import impl_model as im
 import gen_syntax_v
 
 THEOREMS = ['C02_handle_valid', 'C02_parse_reaches_end', 'C02_accepts_table', 'C02_cmd_params_valid', 'C02_rst_params_valid',
-            'C02_name_is_word', 'C02_sadi_valid']
+            'C02_name_is_word', 'C02_sadi_valid', 'C02_parse_modes_agree', 'C02_quiet_never_raises']
 IMPORTS = 'From SX Require Import Base.Prelude Base.Str Model.Symm Model.Cards Spec.Syntax Proofs.CardsProofs.\n'
 HEAD = ['TITL test', 'CELL 0.71073 10.5 11.2 12.3 90 95.5 90', 'ZERR 4 0.001 0.001 0.001 0 0.01 0', 'LATT 1', 'SYMM -X, 1/2+Y, 1/2-Z',
         'SFAC C H O N', 'UNIT 16 20 4 2', 'FVAR 1.0 0.6']
